@@ -1,3 +1,938 @@
+/-
+  C14 — helper lemmas for the re-chunking law, totality and the tool-call spec.
+-/
 import EinoV.Model.C14
+set_option linter.unusedSimpArgs false
+set_option linter.unusedVariables false
 namespace EinoV.C14
+
+/-- "equal results or both errors" -/
+def EqvE {α} (a b : Except Err α) : Prop :=
+  match a, b with
+  | .ok x, .ok y => x = y
+  | .error _, .error _ => True
+  | _, _ => False
+
+theorem EqvE.rfl' {α} (a : Except Err α) : EqvE a a := by
+  cases a <;> simp [EqvE]
+
+theorem EqvE.of_eq {α} {a b : Except Err α} (h : a = b) : EqvE a b := h ▸ EqvE.rfl' a
+
+/-! ### strings -/
+
+theorem joinS_append (xs ys : List String) : joinS (xs ++ ys) = joinS xs ++ joinS ys := by
+  induction xs with
+  | nil => simp [joinS, String.empty_append]
+  | cons x xs ih => simp [joinS, ih, String.append_assoc]
+
+theorem joinS_rechunk (xs ys : List String) : joinS (joinS xs :: ys) = joinS (xs ++ ys) := by
+  simp [joinS, joinS_append]
+
+/-! ### first non-empty with conflict check -/
+
+theorem pick_empty_left (c : Bool) (x : String) : pick c "" x = .ok x := by
+  unfold pick; split <;> simp_all
+
+theorem firstNE_append (c : Bool) (acc : String) (xs ys : List String) :
+    firstNE c acc (xs ++ ys) = (firstNE c acc xs >>= fun r => firstNE c r ys) := by
+  induction xs generalizing acc with
+  | nil => simp [firstNE]; rfl
+  | cons x xs ih =>
+    simp only [List.cons_append, firstNE]
+    cases pick c acc x with
+    | error e => rfl
+    | ok a => simpa [bind, Except.bind] using ih a
+
+theorem firstNE_cons_empty (c : Bool) (r : String) (ys : List String) :
+    firstNE c "" (r :: ys) = firstNE c r ys := by
+  simp [firstNE, pick_empty_left, bind, Except.bind]
+
+theorem firstNE_rechunk (c : Bool) (xs ys : List String) :
+    (firstNE c "" xs >>= fun r => firstNE c "" (r :: ys)) = firstNE c "" (xs ++ ys) := by
+  rw [firstNE_append]; simp only [firstNE_cons_empty]
+
+/-! ### last non-empty -/
+
+theorem lastNEl_append (acc : List Nat) (xs ys : List (List Nat)) :
+    lastNEl acc (xs ++ ys) = lastNEl (lastNEl acc xs) ys := by
+  induction xs generalizing acc with
+  | nil => rfl
+  | cons x xs ih => simp [lastNEl, ih]
+
+theorem lastNEl_rechunk (xs ys : List (List Nat)) :
+    lastNEl [] (lastNEl [] xs :: ys) = lastNEl [] (xs ++ ys) := by
+  rw [lastNEl_append]; simp only [lastNEl]; split <;> simp_all
+
+/-! ### response meta -/
+
+def NormMeta (om : Option Meta) : Prop :=
+  ∀ m, om = some m → ∀ u, m.usage = some u → 0 ≤ u.prompt ∧ 0 ≤ u.completion ∧ 0 ≤ u.total
+
+theorem imax_nonneg (a b : Int) (h : 0 ≤ b) : 0 ≤ imax a b := by
+  unfold imax; split <;> omega
+
+theorem imax_zero (a : Int) (h : 0 ≤ a) : imax a 0 = a := by
+  unfold imax; split <;> omega
+
+theorem stepMeta_norm (acc m : Option Meta) (h : NormMeta acc) : NormMeta (stepMeta acc m) := by
+  cases m with
+  | none => simpa [stepMeta] using h
+  | some x =>
+    intro r hr u hu
+    simp only [stepMeta, Option.some.injEq] at hr
+    subst hr
+    simp only at hu
+    cases hx : x.usage with
+    | none =>
+      simp only [hx] at hu
+      cases acc with
+      | none => simp at hu
+      | some a => exact h a rfl u hu
+    | some xu =>
+      simp only [hx, Option.some.injEq] at hu
+      subst hu
+      cases acc with
+      | none => simp [imax_nonneg]
+      | some a =>
+        cases ha : a.usage with
+        | none => simp [imax_nonneg]
+        | some au =>
+          have := h a rfl au ha
+          simp [imax_nonneg, this]
+
+theorem stepMeta_none_id (r : Option Meta) (h : NormMeta r) : stepMeta none r = r := by
+  cases r with
+  | none => rfl
+  | some x =>
+    obtain ⟨f, u, l⟩ := x
+    simp only [stepMeta, Option.some.injEq]
+    congr 1
+    · split <;> simp_all
+    · cases u with
+      | none => rfl
+      | some uu =>
+        have := h _ rfl uu rfl
+        obtain ⟨p, c, t⟩ := uu
+        simp at this
+        simp [imax_zero, this]
+    · cases l <;> simp
+
+theorem foldl_stepMeta_norm (acc : Option Meta) (ms : List (Option Meta)) (h : NormMeta acc) :
+    NormMeta (ms.foldl stepMeta acc) := by
+  induction ms generalizing acc with
+  | nil => exact h
+  | cons m ms ih => exact ih _ (stepMeta_norm acc m h)
+
+theorem concatMeta_norm (ms : List (Option Meta)) : NormMeta (concatMeta ms) :=
+  foldl_stepMeta_norm none ms (by intro m hm; cases hm)
+
+theorem concatMeta_rechunk (xs ys : List (Option Meta)) :
+    concatMeta (concatMeta xs :: ys) = concatMeta (xs ++ ys) := by
+  have h := stepMeta_none_id _ (concatMeta_norm xs)
+  unfold concatMeta at *
+  rw [List.foldl_cons, List.foldl_append, h]
+
+/-! ### tool calls -/
+
+def GSorted : List (Int × TC) → Prop
+  | [] => True
+  | (j, _) :: r => (∀ p ∈ r, j < p.1) ∧ GSorted r
+
+def GInv (gs : List (Int × TC)) : Prop := GSorted gs ∧ ∀ p ∈ gs, p.2.index = some p.1
+
+def SInv (s : TCState) : Prop := (∀ c ∈ s.nils, c.index = none) ∧ GInv s.groups
+
+theorem mergeTC_index (cfg : Cfg) (g c g' : TC) (h : mergeTC cfg g c = .ok g') : g'.index = g.index := by
+  unfold mergeTC at h
+  cases h1 : pick cfg.tcIdCheck g.id c.id <;> simp [h1, bind, Except.bind] at h
+  cases h2 : pick cfg.tcTypeCheck g.type c.type <;> simp [h2] at h
+  cases h3 : pick cfg.tcNameCheck g.name c.name <;> simp [h3, pure, Except.pure] at h
+  subst h; rfl
+
+theorem insertG_keys (cfg : Cfg) (i : Int) (c : TC) (gs gs' : List (Int × TC))
+    (h : insertG cfg i c gs = .ok gs') : ∀ p ∈ gs', p.1 = i ∨ ∃ q ∈ gs, q.1 = p.1 := by
+  induction gs generalizing gs' with
+  | nil =>
+    simp [insertG] at h; subst h; intro p hp; simp at hp; subst hp; simp
+  | cons hd rest ih =>
+    obtain ⟨j, g⟩ := hd
+    unfold insertG at h
+    split at h
+    · cases h; intro p hp
+      simp only [List.mem_cons] at hp
+      rcases hp with rfl | rfl | hp
+      · simp
+      · right; exact ⟨(j, g), by simp, rfl⟩
+      · right; exact ⟨p, by simp [hp], rfl⟩
+    · split at h
+      · cases hm : mergeTC cfg g c <;> simp [hm, bind, Except.bind, pure, Except.pure] at h
+        subst h; intro p hp
+        simp only [List.mem_cons] at hp
+        rcases hp with rfl | hp
+        · right; exact ⟨(j, g), by simp, rfl⟩
+        · right; exact ⟨p, by simp [hp], rfl⟩
+      · cases hr : insertG cfg i c rest <;> simp [hr, bind, Except.bind, pure, Except.pure] at h
+        subst h; intro p hp
+        simp only [List.mem_cons] at hp
+        rcases hp with rfl | hp
+        · right; exact ⟨(j, g), by simp, rfl⟩
+        · rcases ih _ hr p hp with h1 | ⟨q, hq, he⟩
+          · left; exact h1
+          · right; exact ⟨q, by simp [hq], he⟩
+
+theorem insertG_inv (cfg : Cfg) (i : Int) (c : TC) (hc : c.index = some i) (gs gs' : List (Int × TC))
+    (hi : GInv gs) (h : insertG cfg i c gs = .ok gs') : GInv gs' := by
+  induction gs generalizing gs' with
+  | nil =>
+    simp [insertG] at h; subst h
+    exact ⟨by simp [GSorted], by intro p hp; simp at hp; subst hp; exact hc⟩
+  | cons hd rest ih =>
+    obtain ⟨j, g⟩ := hd
+    obtain ⟨⟨hlb, hs⟩, hidx⟩ := hi
+    have hrest : GInv rest := ⟨hs, fun p hp => hidx p (by simp [hp])⟩
+    unfold insertG at h
+    split at h
+    · rename_i hlt
+      cases h
+      refine ⟨⟨?_, hlb, hs⟩, ?_⟩
+      · intro p hp
+        simp only [List.mem_cons] at hp
+        rcases hp with rfl | hp
+        · exact hlt
+        · have := hlb p hp; omega
+      · intro p hp
+        simp only [List.mem_cons] at hp
+        rcases hp with rfl | hp
+        · exact hc
+        · exact hidx p (by simpa using hp)
+    · split at h
+      · rename_i heq
+        cases hm : mergeTC cfg g c <;> simp [hm, bind, Except.bind, pure, Except.pure] at h
+        rename_i g'
+        subst h
+        refine ⟨⟨hlb, hs⟩, ?_⟩
+        intro p hp
+        simp only [List.mem_cons] at hp
+        rcases hp with rfl | hp
+        · have := mergeTC_index _ _ _ _ hm
+          have h0 := hidx (j, g) (by simp)
+          simp_all
+        · exact hidx p (by simp [hp])
+      · rename_i hnlt hne
+        cases hr : insertG cfg i c rest <;> simp [hr, bind, Except.bind, pure, Except.pure] at h
+        rename_i r'
+        subst h
+        have ⟨hs', hidx'⟩ := ih r' hrest hr
+        refine ⟨⟨?_, hs'⟩, ?_⟩
+        · intro p hp
+          rcases insertG_keys _ _ _ _ _ hr p hp with h1 | ⟨q, hq, he⟩
+          · omega
+          · have := hlb q hq; omega
+        · intro p hp
+          simp only [List.mem_cons] at hp
+          rcases hp with rfl | hp
+          · exact hidx (j, g) (by simp)
+          · exact hidx' p hp
+
+theorem stepTC_inv (cfg : Cfg) (s s' : TCState) (c : TC) (hi : SInv s) (h : stepTC cfg s c = .ok s') :
+    SInv s' := by
+  unfold stepTC at h
+  split at h
+  · rename_i hn
+    cases h
+    refine ⟨?_, hi.2⟩
+    intro x hx
+    simp only [List.mem_append, List.mem_singleton] at hx
+    rcases hx with hx | rfl
+    · exact hi.1 x hx
+    · exact hn
+  · rename_i i hsome
+    cases hr : insertG cfg i c s.groups <;> simp [hr, bind, Except.bind, pure, Except.pure] at h
+    subst h
+    exact ⟨hi.1, insertG_inv cfg i c hsome _ _ hi.2 hr⟩
+
+theorem foldlM_stepTC_inv (cfg : Cfg) (cs : List TC) (s s' : TCState) (hi : SInv s)
+    (h : cs.foldlM (stepTC cfg) s = .ok s') : SInv s' := by
+  induction cs generalizing s with
+  | nil => simp [pure, Except.pure] at h; subst h; exact hi
+  | cons c cs ih =>
+    simp only [List.foldlM_cons] at h
+    cases hs : stepTC cfg s c <;> simp [hs, bind, Except.bind] at h
+    exact ih _ (stepTC_inv cfg _ _ _ hi hs) h
+
+theorem insertG_gt (cfg : Cfg) (i : Int) (c : TC) (gs : List (Int × TC)) (h : ∀ p ∈ gs, p.1 < i) :
+    insertG cfg i c gs = .ok (gs ++ [(i, c)]) := by
+  induction gs with
+  | nil => rfl
+  | cons hd rest ih =>
+    obtain ⟨j, g⟩ := hd
+    have hj : j < i := h (j, g) (by simp)
+    unfold insertG
+    rw [if_neg (by omega), if_neg (by omega), ih (fun p hp => h p (by simp [hp]))]
+    rfl
+
+theorem refold_nils (cfg : Cfg) (ns : List TC) (hn : ∀ c ∈ ns, c.index = none) (n0 : List TC) (g0 : List (Int × TC)) :
+    ns.foldlM (stepTC cfg) ⟨n0, g0⟩ = .ok ⟨n0 ++ ns, g0⟩ := by
+  induction ns generalizing n0 with
+  | nil => simp [List.foldlM, pure, Except.pure]
+  | cons c ns ih =>
+    have hc : c.index = none := hn c (by simp)
+    simp only [List.foldlM_cons, stepTC, hc, bind, Except.bind]
+    rw [ih (fun x hx => hn x (by simp [hx]))]
+    simp
+
+theorem gsorted_append_lt (g0 : List (Int × TC)) (i : Int) (t : TC) (hs : List (Int × TC))
+    (h : GSorted (g0 ++ (i, t) :: hs)) : ∀ p ∈ g0, p.1 < i := by
+  induction g0 with
+  | nil => intro p hp; cases hp
+  | cons hd rest ih =>
+    obtain ⟨j, g⟩ := hd
+    simp only [List.cons_append, GSorted] at h
+    intro p hp
+    simp only [List.mem_cons] at hp
+    rcases hp with rfl | hp
+    · exact h.1 (i, t) (by simp)
+    · exact ih h.2 p hp
+
+theorem refold_groups (cfg : Cfg) (hs : List (Int × TC)) (n : List TC) (g0 : List (Int × TC))
+    (hi : GInv (g0 ++ hs)) :
+    (hs.map (·.2)).foldlM (stepTC cfg) ⟨n, g0⟩ = .ok ⟨n, g0 ++ hs⟩ := by
+  induction hs generalizing g0 with
+  | nil => simp [List.foldlM, pure, Except.pure]
+  | cons hd rest ih =>
+    obtain ⟨i, t⟩ := hd
+    have hidx : t.index = some i := hi.2 (i, t) (by simp)
+    have hlt := gsorted_append_lt g0 i t rest hi.1
+    simp only [List.map_cons, List.foldlM_cons, stepTC, hidx, bind, Except.bind, insertG_gt cfg i t g0 hlt,
+      pure, Except.pure]
+    have := ih (g0 ++ [(i, t)]) (by simpa using hi)
+    simpa using this
+
+theorem refold_out (cfg : Cfg) (s : TCState) (hi : SInv s) :
+    s.out.foldlM (stepTC cfg) ⟨[], []⟩ = .ok s := by
+  unfold TCState.out
+  rw [List.foldlM_append, refold_nils cfg s.nils hi.1]
+  simp only [bind, Except.bind, List.nil_append]
+  have := refold_groups cfg s.groups s.nils [] (by simpa using hi.2)
+  simpa using this
+
+theorem sinv_init : SInv ⟨[], []⟩ := ⟨by simp, by simp [GSorted], by simp⟩
+
+/-- re-chunking law for tool calls, as an exact equality -/
+theorem concatTC_rechunk (cfg : Cfg) (xs ys : List TC) :
+    (concatTC cfg xs >>= fun r => concatTC cfg (r ++ ys)) = concatTC cfg (xs ++ ys) := by
+  unfold concatTC
+  rw [List.foldlM_append]
+  cases hx : xs.foldlM (stepTC cfg) ⟨[], []⟩ with
+  | error e => rfl
+  | ok s =>
+    have hi := foldlM_stepTC_inv cfg xs _ _ sinv_init hx
+    simp only [bind, Except.bind, pure, Except.pure]
+    rw [List.foldlM_append, refold_out cfg s hi]
+    rfl
+
+/-! ### keys in first-appearance order, gathered values -/
+
+theorem mem_keysOf (l : List String) (k : String) : k ∈ keysOf l ↔ k ∈ l := by
+  induction l with
+  | nil => simp [keysOf]
+  | cons x xs ih =>
+    simp only [keysOf, List.mem_cons, List.mem_filter, ih, bne_iff_ne, ne_eq]
+    constructor
+    · rintro (h | ⟨h, _⟩)
+      · exact Or.inl h
+      · exact Or.inr h
+    · intro h
+      by_cases hk : k = x
+      · exact Or.inl hk
+      · rcases h with h | h
+        · exact Or.inl h
+        · exact Or.inr ⟨h, hk⟩
+
+theorem keysOf_nodup (l : List String) : (keysOf l).Nodup := by
+  induction l with
+  | nil => simp [keysOf]
+  | cons x xs ih =>
+    simp only [keysOf, List.nodup_cons, List.mem_filter, bne_iff_ne, ne_eq, not_and, Decidable.not_not]
+    exact ⟨fun _ => trivial, ih.filter _⟩
+
+theorem filter_ne_of_not_mem (l : List String) (k : String) (h : k ∉ l) :
+    l.filter (fun x => x != k) = l := by
+  rw [List.filter_eq_self]
+  intro a ha
+  simp only [bne_iff_ne, ne_eq]
+  intro e; subst e; exact h ha
+
+theorem keysOf_of_nodup (l : List String) (h : l.Nodup) : keysOf l = l := by
+  induction l with
+  | nil => rfl
+  | cons x xs ih =>
+    rw [List.nodup_cons] at h
+    simp only [keysOf, ih h.2, filter_ne_of_not_mem xs x h.1]
+
+theorem keysOf_append (a b : List String) :
+    keysOf (a ++ b) = keysOf a ++ (keysOf b).filter (fun k => !a.contains k) := by
+  induction a with
+  | nil =>
+    simp only [List.nil_append, keysOf, List.contains_nil, Bool.not_false]
+    exact (List.filter_eq_self.2 (fun _ _ => rfl)).symm
+  | cons x xs ih =>
+    simp only [List.cons_append, keysOf, ih, List.filter_append, List.filter_filter, List.cons.injEq, true_and]
+    congr 1
+    apply List.filter_congr
+    intro k _
+    simp only [List.contains_cons, Bool.not_or, bne]
+
+theorem keysOf_keysOf_append (a b : List String) : keysOf (keysOf a ++ b) = keysOf (a ++ b) := by
+  rw [keysOf_append, keysOf_append, keysOf_of_nodup _ (keysOf_nodup a)]
+  congr 1
+  apply List.filter_congr
+  intro k _
+  congr 1
+  rw [Bool.eq_iff_iff]
+  simp [mem_keysOf]
+
+theorem vals_append (a b : KVs) (k : String) : vals (a ++ b) k = vals a k ++ vals b k := by
+  simp [vals]
+
+theorem vals_of_not_mem (r : KVs) (k : String) (h : k ∉ r.map (·.1)) : vals r k = [] := by
+  simp only [vals, List.map_eq_nil_iff, List.filter_eq_nil_iff, beq_iff_eq]
+  intro p hp e
+  exact h (by simp only [List.mem_map]; exact ⟨p, hp, e⟩)
+
+theorem vals_ne_nil (r : KVs) (k : String) (h : k ∈ r.map (·.1)) : vals r k ≠ [] := by
+  simp only [List.mem_map] at h
+  obtain ⟨p, hp, e⟩ := h
+  intro hnil
+  simp only [vals, List.map_eq_nil_iff, List.filter_eq_nil_iff] at hnil
+  exact hnil p hp (by simp [e])
+
+theorem vals_of_nodup (r : KVs) (h : (r.map (·.1)).Nodup) (k : String) (v : XVal) (hm : (k, v) ∈ r) :
+    vals r k = [v] := by
+  induction r with
+  | nil => cases hm
+  | cons hd tl ih =>
+    simp only [List.map_cons, List.nodup_cons] at h
+    simp only [List.mem_cons] at hm
+    rcases hm with rfl | hm
+    · have : vals tl k = [] := vals_of_not_mem tl k h.1
+      simp only [vals] at this ⊢
+      simp [this]
+    · have hne : hd.1 ≠ k := by
+        intro e; apply h.1; simp only [List.mem_map]; exact ⟨(k, v), hm, e.symm⟩
+      have := ih h.2 hm
+      simp only [vals] at this ⊢
+      simp [hne, this]
+
+/-! ### per-key map construction -/
+
+def buildM (f : String → Except Err XVal) (ks : List String) : Except Err KVs :=
+  ks.mapM (fun k => do let v ← f k; pure (k, v))
+
+theorem buildM_nil (f : String → Except Err XVal) : buildM f [] = .ok [] := rfl
+
+theorem buildM_cons (f : String → Except Err XVal) (k : String) (ks : List String) :
+    buildM f (k :: ks) = (do let v ← f k; let r ← buildM f ks; pure ((k, v) :: r)) := by
+  simp [buildM, List.mapM_cons]
+
+theorem buildM_ok (f : String → Except Err XVal) (ks : List String) (r : KVs) (h : buildM f ks = .ok r) :
+    r.map (·.1) = ks ∧ ∀ p ∈ r, f p.1 = .ok p.2 := by
+  induction ks generalizing r with
+  | nil => simp [buildM_nil] at h; subst h; simp
+  | cons k ks ih =>
+    rw [buildM_cons] at h
+    cases hf : f k <;> simp [hf, bind, Except.bind] at h
+    cases hb : buildM f ks <;> simp [hb, pure, Except.pure] at h
+    subst h
+    have ⟨h1, h2⟩ := ih _ hb
+    refine ⟨by simp [h1], ?_⟩
+    intro p hp
+    simp only [List.mem_cons] at hp
+    rcases hp with rfl | hp
+    · exact hf
+    · exact h2 p hp
+
+theorem buildM_error (f : String → Except Err XVal) (ks : List String) (e : Err) (h : buildM f ks = .error e) :
+    ∃ k ∈ ks, f k = .error e := by
+  induction ks with
+  | nil => simp [buildM_nil] at h
+  | cons k ks ih =>
+    rw [buildM_cons] at h
+    cases hf : f k with
+    | error e' => simp [hf, bind, Except.bind] at h; subst h; exact ⟨k, by simp, hf⟩
+    | ok v =>
+      simp [hf, bind, Except.bind] at h
+      cases hb : buildM f ks with
+      | error e' =>
+        simp [hb] at h; subst h
+        obtain ⟨k', hk', he⟩ := ih hb
+        exact ⟨k', by simp [hk'], he⟩
+      | ok r => simp [hb, pure, Except.pure] at h
+
+theorem buildM_error_of (f : String → Except Err XVal) (ks : List String) (k : String) (hk : k ∈ ks) (e : Err)
+    (h : f k = .error e) : ∃ e', buildM f ks = .error e' := by
+  induction ks with
+  | nil => cases hk
+  | cons k0 ks ih =>
+    rw [buildM_cons]
+    cases hf : f k0 with
+    | error e' => exact ⟨e', rfl⟩
+    | ok v =>
+      simp only [List.mem_cons] at hk
+      rcases hk with rfl | hk
+      · rw [hf] at h; cases h
+      · obtain ⟨e', he⟩ := ih hk
+        exact ⟨e', by simp [bind, Except.bind, he]⟩
+
+theorem buildM_congr (f f' : String → Except Err XVal) (ks : List String)
+    (h : ∀ k ∈ ks, EqvE (f k) (f' k)) : EqvE (buildM f ks) (buildM f' ks) := by
+  induction ks with
+  | nil => simp [buildM_nil, EqvE]
+  | cons k ks ih =>
+    rw [buildM_cons, buildM_cons]
+    have hk := h k (by simp)
+    have ih' := ih (fun k' hk' => h k' (by simp [hk']))
+    cases hf : f k <;> cases hf' : f' k <;> simp [hf, hf', EqvE] at hk
+    · simp [bind, Except.bind, EqvE]
+    · subst hk
+      cases hb : buildM f ks <;> cases hb' : buildM f' ks <;> simp [hb, hb', EqvE] at ih'
+      · simp [bind, Except.bind, EqvE]
+      · subst ih'; simp [bind, Except.bind, pure, Except.pure, EqvE]
+
+
+/-! ### concatSliceValue rules -/
+
+theorem EqvE.error_left {α} {e : Err} {b : Except Err α} (h : EqvE (.error e) b) : ∃ e', b = .error e' := by
+  cases b with
+  | error e' => exact ⟨e', rfl⟩
+  | ok v => simp [EqvE] at h
+
+theorem combineSc_sc (r : Rule) (ty : String) (l : List String) (x : XVal) (h : combineSc r ty l = .ok x) :
+    ∃ u, x = .sc ty u := by
+  unfold combineSc at h
+  cases r <;> simp only at h
+  · cases h; exact ⟨_, rfl⟩
+  · split at h <;> cases h; exact ⟨_, rfl⟩
+  · split at h <;> cases h <;> exact ⟨_, rfl⟩
+
+theorem combineSc_rechunk (r : Rule) (ty : String) (l qs : List String) (u : String) (hl : l ≠ [])
+    (h : combineSc r ty l = .ok (.sc ty u)) : combineSc r ty (u :: qs) = combineSc r ty (l ++ qs) := by
+  unfold combineSc at h ⊢
+  cases r <;> simp only at h ⊢
+  · simp only [Except.ok.injEq, XVal.sc.injEq, true_and] at h
+    subst h; rw [joinS_rechunk]
+  · split at h <;> simp only [Except.ok.injEq, XVal.sc.injEq, true_and, reduceCtorEq] at h
+    subst h
+    rename_i v hv
+    cases qs with
+    | nil => simp [hv]
+    | cons q qs' =>
+      rw [List.getLast?_cons_cons, List.getLast?_append]
+      cases hg : (q :: qs').getLast? with
+      | none => simp at hg
+      | some z => simp
+  · split at h <;> simp only [Except.ok.injEq, XVal.sc.injEq, true_and, reduceCtorEq] at h
+    · rename_i hf; subst h
+      simp [List.filter_append, hf, List.filter_cons]
+    · rename_i v hf; subst h
+      have hv : (v != "") = true := by
+        have : v ∈ l.filter (fun v => v != "") := by rw [hf]; simp
+        exact (List.mem_filter.1 this).2
+      simp [List.filter_append, hf, List.filter_cons, hv]
+
+theorem combineSc_mono (r : Rule) (ty : String) (l qs : List String) (e : Err) (hl : l ≠ [])
+    (h : combineSc r ty l = .error e) : ∃ e', combineSc r ty (l ++ qs) = .error e' := by
+  unfold combineSc at h ⊢
+  cases r <;> simp only at h ⊢
+  · cases h
+  · split at h
+    · rename_i hn
+      simp [List.getLast?_eq_none_iff] at hn
+      exact absurd hn hl
+    · cases h
+  · split at h
+    · cases h
+    · cases h
+    · rename_i a b t hf
+      simp [List.filter_append, hf]
+
+/-! ### one key -/
+
+theorem mapM_append_except {α β} (f : α → Except Err β) (l l' : List α) :
+    (l ++ l').mapM f = (do let a ← l.mapM f; let b ← l'.mapM f; pure (a ++ b)) := by
+  simp [List.mapM_append]
+
+theorem perKeyW_nonnil (cfg : Cfg) (rec : List KVs → Except Err KVs) (ws : List XVal) (hws : ws ≠ [])
+    (r : XVal) (h : perKeyW cfg rec ws = .ok r) : r.isNil = false := by
+  cases ws with
+  | nil => exact absurd rfl hws
+  | cons w rest =>
+    cases w with
+    | nil => simp [perKeyW] at h
+    | sc ty v =>
+      simp only [perKeyW] at h
+      cases hp : rest.mapM (asSc ty) <;> simp [hp, bind, Except.bind] at h
+      obtain ⟨u, hu⟩ := combineSc_sc _ _ _ _ h
+      subst hu; rfl
+    | map kvs =>
+      simp only [perKeyW] at h
+      cases hp : rest.mapM asMap <;> simp [hp, bind, Except.bind] at h
+      rename_i ms
+      cases hr : rec (kvs :: ms) <;> simp [hr, pure, Except.pure] at h
+      subst h; rfl
+
+theorem perKeyW_rechunk (cfg : Cfg) (rec : List KVs → Except Err KVs)
+    (hrec : ∀ ms ms', ms ≠ [] → EqvE (rec ms >>= fun r => rec (r :: ms')) (rec (ms ++ ms')))
+    (wa wb : List XVal) (hwa : wa ≠ []) :
+    EqvE (perKeyW cfg rec wa >>= fun r => perKeyW cfg rec (r :: wb)) (perKeyW cfg rec (wa ++ wb)) := by
+  cases wa with
+  | nil => exact absurd rfl hwa
+  | cons w rest =>
+    cases w with
+    | nil => simp [perKeyW, bind, Except.bind, EqvE]
+    | sc ty v =>
+      simp only [List.cons_append, perKeyW, mapM_append_except]
+      cases hp : rest.mapM (asSc ty) with
+      | error e => simp [bind, Except.bind, EqvE]
+      | ok ps =>
+        simp only [bind, Except.bind]
+        cases hc : combineSc (cfg.rule ty) ty (v :: ps) with
+        | error e =>
+          simp only
+          cases hq : wb.mapM (asSc ty) with
+          | error e' => simp [EqvE]
+          | ok qs =>
+            obtain ⟨e', he⟩ := combineSc_mono _ _ (v :: ps) qs e (by simp) hc
+            simp only [pure, Except.pure, ← List.cons_append, he, EqvE]
+        | ok x =>
+          obtain ⟨u, hu⟩ := combineSc_sc _ _ _ _ hc
+          subst hu
+          simp only [perKeyW, bind, Except.bind]
+          cases hq : wb.mapM (asSc ty) with
+          | error e' => simp [EqvE]
+          | ok qs =>
+            simp only [pure, Except.pure]
+            rw [combineSc_rechunk _ _ (v :: ps) qs u (by simp) hc]
+            exact EqvE.rfl' _
+    | map kvs =>
+      simp only [List.cons_append, perKeyW, mapM_append_except]
+      cases hp : rest.mapM asMap with
+      | error e => simp [bind, Except.bind, EqvE]
+      | ok ms =>
+        simp only [bind, Except.bind]
+        have hr := hrec (kvs :: ms)
+        cases hc : rec (kvs :: ms) with
+        | error e =>
+          simp only
+          cases hq : wb.mapM asMap with
+          | error e' => simp [EqvE]
+          | ok ms' =>
+            have := hr ms' (by simp)
+            rw [hc] at this
+            obtain ⟨e', he⟩ := EqvE.error_left this
+            simp only [pure, Except.pure, ← List.cons_append, he, EqvE]
+        | ok r =>
+          simp only [pure, Except.pure, perKeyW, bind, Except.bind]
+          cases hq : wb.mapM asMap with
+          | error e' => simp [EqvE]
+          | ok ms' =>
+            have := hr ms' (by simp)
+            rw [hc] at this
+            simp only [bind, Except.bind, List.cons_append] at this
+            simp only
+            cases h1 : rec (r :: ms') <;> cases h2 : rec (kvs :: (ms ++ ms')) <;>
+              simp [h1, h2, EqvE] at this ⊢
+            exact this
+
+theorem dropNil_append (cfg : Cfg) (a b : List XVal) : dropNil cfg (a ++ b) = dropNil cfg a ++ dropNil cfg b := by
+  unfold dropNil; split <;> simp
+
+theorem dropNil_cons_nonnil (cfg : Cfg) (r : XVal) (b : List XVal) (h : r.isNil = false) :
+    dropNil cfg (r :: b) = r :: dropNil cfg b := by
+  unfold dropNil; split <;> simp [h]
+
+theorem dropNil_cons_nil (cfg : Cfg) (b : List XVal) (h : cfg.nilAbsent = true) :
+    dropNil cfg (.nil :: b) = dropNil cfg b := by
+  unfold dropNil; simp [h, XVal.isNil]
+
+theorem perKey_rechunk (cfg : Cfg) (rec : List KVs → Except Err KVs)
+    (hrec : ∀ ms ms', ms ≠ [] → EqvE (rec ms >>= fun r => rec (r :: ms')) (rec (ms ++ ms')))
+    (va vb : List XVal) (hva : va ≠ []) :
+    EqvE (perKey cfg rec va >>= fun r => perKey cfg rec (r :: vb)) (perKey cfg rec (va ++ vb)) := by
+  unfold perKey
+  rw [dropNil_append]
+  by_cases hw : dropNil cfg va = []
+  · have hg : cfg.nilAbsent = true := by
+      cases hb : cfg.nilAbsent with
+      | true => rfl
+      | false => simp [dropNil, hb] at hw; exact absurd hw hva
+    simp only [hw, perKeyW, bind, Except.bind, List.nil_append, dropNil_cons_nil cfg vb hg]
+    exact EqvE.rfl' _
+  · have key := perKeyW_rechunk cfg rec hrec (dropNil cfg va) (dropNil cfg vb) hw
+    cases hx : perKeyW cfg rec (dropNil cfg va) with
+    | error e => rw [hx] at key; simpa [bind, Except.bind] using key
+    | ok r =>
+      rw [hx] at key
+      have hn := perKeyW_nonnil cfg rec _ hw r hx
+      simp only [bind, Except.bind] at key ⊢
+      rw [dropNil_cons_nonnil cfg r vb hn]
+      exact key
+
+
+/-! ### whole maps -/
+
+theorem build_rechunk (h : List XVal → Except Err XVal)
+    (PK : ∀ va vb, va ≠ [] → EqvE (h va >>= fun r => h (r :: vb)) (h (va ++ vb))) (A B : KVs) :
+    EqvE (buildM (fun k => h (vals A k)) (keysOf (A.map (·.1))) >>= fun r =>
+            buildM (fun k => h (vals (r ++ B) k)) (keysOf ((r ++ B).map (·.1))))
+         (buildM (fun k => h (vals (A ++ B) k)) (keysOf ((A ++ B).map (·.1)))) := by
+  cases hA : buildM (fun k => h (vals A k)) (keysOf (A.map (·.1))) with
+  | error e =>
+    obtain ⟨k, hk, he⟩ := buildM_error _ _ _ hA
+    have hkA : k ∈ A.map (·.1) := (mem_keysOf _ _).1 hk
+    have hpk := PK (vals A k) (vals B k) (vals_ne_nil A k hkA)
+    rw [he] at hpk
+    obtain ⟨e'', he''⟩ := EqvE.error_left hpk
+    have hk' : k ∈ keysOf ((A ++ B).map (·.1)) := by
+      rw [mem_keysOf]; simp only [List.map_append, List.mem_append]; exact Or.inl hkA
+    obtain ⟨e3, he3⟩ := buildM_error_of (fun k => h (vals (A ++ B) k)) _ k hk' e'' (by simpa [vals_append] using he'')
+    rw [he3]; simp [bind, Except.bind, EqvE]
+  | ok r =>
+    obtain ⟨hkeys, hvals⟩ := buildM_ok _ _ _ hA
+    simp only [bind, Except.bind]
+    have hnd : (r.map (·.1)).Nodup := by rw [hkeys]; exact keysOf_nodup _
+    have hK : keysOf ((r ++ B).map (·.1)) = keysOf ((A ++ B).map (·.1)) := by
+      simp only [List.map_append, hkeys, keysOf_keysOf_append]
+    rw [hK]
+    apply buildM_congr
+    intro k _
+    simp only [vals_append]
+    by_cases hkA : k ∈ A.map (·.1)
+    · have hkr : k ∈ r.map (·.1) := by rw [hkeys, mem_keysOf]; exact hkA
+      simp only [List.mem_map] at hkr
+      obtain ⟨p, hp, hpk⟩ := hkr
+      obtain ⟨k', v⟩ := p
+      simp only at hpk; subst hpk
+      rw [vals_of_nodup r hnd _ v hp]
+      have hv := hvals _ hp
+      simp only at hv
+      have hpk := PK (vals A k') (vals B k') (vals_ne_nil A k' hkA)
+      rw [hv] at hpk
+      simpa [bind, Except.bind] using hpk
+    · have hkr : k ∉ r.map (·.1) := by rw [hkeys, mem_keysOf]; exact hkA
+      rw [vals_of_not_mem r k hkr, vals_of_not_mem A k hkA]
+      exact EqvE.rfl' _
+
+theorem concatEvs_succ (cfg : Cfg) (n : Nat) (evs : KVs) :
+    concatEvs cfg (n + 1) evs =
+      buildM (fun k => perKey cfg (fun ms => concatEvs cfg n ms.flatten) (vals evs k)) (keysOf (evs.map (·.1))) := rfl
+
+/-- re-chunking law for `map[string]any` (on the flattened occurrences) -/
+theorem concatEvs_rechunk (cfg : Cfg) (n : Nat) (A B : KVs) :
+    EqvE (concatEvs cfg n A >>= fun r => concatEvs cfg n (r ++ B)) (concatEvs cfg n (A ++ B)) := by
+  induction n generalizing A B with
+  | zero => simp [concatEvs, bind, Except.bind, EqvE]
+  | succ n ih =>
+    simp only [concatEvs_succ]
+    apply build_rechunk (perKey cfg (fun ms => concatEvs cfg n ms.flatten))
+    intro va vb hva
+    apply perKey_rechunk _ _ _ va vb hva
+    intro ms ms' _
+    simpa using ih ms.flatten ms'.flatten
+
+theorem concatMaps_rechunk (cfg : Cfg) (n : Nat) (xs ys : List KVs) :
+    EqvE (concatMaps cfg n xs >>= fun r => concatMaps cfg n (r :: ys)) (concatMaps cfg n (xs ++ ys)) := by
+  simpa [concatMaps] using concatEvs_rechunk cfg n xs.flatten ys.flatten
+
+/-! ### no panic with the nil guard; fuel adequacy -/
+
+theorem mapM_mem_ok {α β} (f : α → Except Err β) (l : List α) (r : List β) (h : l.mapM f = .ok r) :
+    ∀ y ∈ r, ∃ x ∈ l, f x = .ok y := by
+  induction l generalizing r with
+  | nil => simp [pure, Except.pure] at h; subst h; intro y hy; cases hy
+  | cons a l ih =>
+    rw [List.mapM_cons] at h
+    cases ha : f a <;> simp [ha, bind, Except.bind] at h
+    cases hl : l.mapM f <;> simp [hl, pure, Except.pure] at h
+    subst h
+    intro y hy
+    simp only [List.mem_cons] at hy
+    rcases hy with rfl | hy
+    · exact ⟨a, by simp, ha⟩
+    · obtain ⟨x, hx, hfx⟩ := ih _ hl y hy
+      exact ⟨x, by simp [hx], hfx⟩
+
+theorem mapM_error_mem {α β} (f : α → Except Err β) (l : List α) (e : Err) (h : l.mapM f = .error e) :
+    ∃ x ∈ l, f x = .error e := by
+  induction l with
+  | nil => simp [pure, Except.pure] at h
+  | cons a l ih =>
+    rw [List.mapM_cons] at h
+    cases ha : f a with
+    | error e' => simp [ha, bind, Except.bind] at h; subst h; exact ⟨a, by simp, ha⟩
+    | ok v =>
+      simp [ha, bind, Except.bind] at h
+      cases hl : l.mapM f with
+      | error e' =>
+        simp [hl] at h; subst h
+        obtain ⟨x, hx, hfx⟩ := ih hl
+        exact ⟨x, by simp [hx], hfx⟩
+      | ok r => simp [hl, pure, Except.pure] at h
+
+theorem asSc_fail (ty : String) (x : XVal) (e : Err) (h : asSc ty x = .error e) : e = .fail := by
+  unfold asSc at h; split at h
+  · split at h <;> cases h; rfl
+  · cases h; rfl
+
+theorem asMap_fail (x : XVal) (e : Err) (h : asMap x = .error e) : e = .fail := by
+  unfold asMap at h; split at h <;> cases h; rfl
+
+theorem combineSc_err (r : Rule) (ty : String) (v : String) (ps : List String) (e : Err)
+    (h : combineSc r ty (v :: ps) = .error e) : e = .fail := by
+  unfold combineSc at h
+  cases r <;> simp only at h
+  · cases h
+  · split at h
+    · rename_i hn; simp [List.getLast?_eq_none_iff] at hn
+    · cases h
+  · split at h <;> cases h; rfl
+
+/-- errors of one key: either an ordinary failure, or the nil-type panic (only without the
+    guard), or whatever the nested concatenation reports -/
+theorem perKey_err (cfg : Cfg) (rec : List KVs → Except Err KVs) (vs : List XVal) (e : Err)
+    (h : perKey cfg rec vs = .error e) :
+    e = .fail ∨ (e = .panic ∧ cfg.nilAbsent = false) ∨
+      ∃ ms, ms ≠ [] ∧ (∀ m ∈ ms, .map m ∈ vs) ∧ rec ms = .error e := by
+  unfold perKey at h
+  have hsub : ∀ x ∈ dropNil cfg vs, x ∈ vs ∧ (cfg.nilAbsent = true → x.isNil = false) := by
+    intro x hx; unfold dropNil at hx
+    split at hx
+    · rename_i hg; simp only [List.mem_filter, Bool.not_eq_eq_eq_not, Bool.not_true] at hx
+      exact ⟨hx.1, fun _ => hx.2⟩
+    · rename_i hg; exact ⟨hx, fun hh => absurd hh hg⟩
+  cases hd : dropNil cfg vs with
+  | nil => simp [hd, perKeyW] at h
+  | cons w rest =>
+    rw [hd] at h hsub
+    cases w with
+    | nil =>
+      simp only [perKeyW] at h; cases h
+      right; left; refine ⟨rfl, ?_⟩
+      cases hg : cfg.nilAbsent with
+      | false => rfl
+      | true => have := (hsub .nil (by simp)).2 hg; simp [XVal.isNil] at this
+    | sc ty v =>
+      simp only [perKeyW] at h
+      cases hp : rest.mapM (asSc ty) with
+      | error e' =>
+        simp [hp, bind, Except.bind] at h; subst h
+        obtain ⟨x, _, hx⟩ := mapM_error_mem _ _ _ hp
+        exact Or.inl (asSc_fail _ _ _ hx)
+      | ok ps =>
+        simp [hp, bind, Except.bind] at h
+        exact Or.inl (combineSc_err _ _ _ _ _ h)
+    | map kvs =>
+      simp only [perKeyW] at h
+      cases hp : rest.mapM asMap with
+      | error e' =>
+        simp [hp, bind, Except.bind] at h; subst h
+        obtain ⟨x, _, hx⟩ := mapM_error_mem _ _ _ hp
+        exact Or.inl (asMap_fail _ _ hx)
+      | ok ms =>
+        simp [hp, bind, Except.bind] at h
+        cases hr : rec (kvs :: ms) with
+        | ok r => simp [hr, pure, Except.pure] at h
+        | error e' =>
+          simp [hr] at h; subst h
+          right; right
+          refine ⟨kvs :: ms, by simp, ?_, hr⟩
+          intro m hm
+          simp only [List.mem_cons] at hm
+          rcases hm with rfl | hm
+          · exact (hsub _ (by simp)).1
+          · obtain ⟨x, hx, hfx⟩ := mapM_mem_ok _ _ _ hp m hm
+            have : x = .map m := by
+              unfold asMap at hfx; split at hfx <;> cases hfx; rfl
+            subst this
+            exact (hsub _ (by simp [hx])).1
+
+theorem concatEvs_no_panic (cfg : Cfg) (hg : cfg.nilAbsent = true) (n : Nat) (evs : KVs) :
+    concatEvs cfg n evs ≠ .error .panic := by
+  induction n generalizing evs with
+  | zero => simp [concatEvs]
+  | succ n ih =>
+    intro h
+    rw [concatEvs_succ] at h
+    obtain ⟨k, _, he⟩ := buildM_error _ _ _ h
+    rcases perKey_err _ _ _ _ he with h1 | ⟨_, h2⟩ | ⟨ms, _, _, h3⟩
+    · cases h1
+    · rw [hg] at h2; cases h2
+    · exact ih _ h3
+
+theorem depth_map (m : KVs) : (XVal.map m).depth = 1 + depthKVs m := by
+  simp [XVal.depth, depthKVs]
+
+theorem depthKVs_cons (k : String) (v : XVal) (r : KVs) : depthKVs ((k, v) :: r) = max v.depth (depthKVs r) := by
+  simp [depthKVs, XVal.depth.go]
+
+theorem depth_mem (evs : KVs) (k : String) (v : XVal) (h : (k, v) ∈ evs) : v.depth ≤ depthKVs evs := by
+  induction evs with
+  | nil => cases h
+  | cons hd tl ih =>
+    obtain ⟨k', v'⟩ := hd
+    rw [depthKVs_cons]
+    simp only [List.mem_cons, Prod.mk.injEq] at h
+    rcases h with ⟨_, rfl⟩ | h
+    · omega
+    · have := ih h; omega
+
+theorem depthKVs_append (a b : KVs) : depthKVs (a ++ b) = max (depthKVs a) (depthKVs b) := by
+  induction a with
+  | nil => simp [depthKVs, XVal.depth.go]
+  | cons hd tl ih =>
+    obtain ⟨k, v⟩ := hd
+    simp only [List.cons_append, depthKVs_cons, ih]; omega
+
+theorem depthKVs_flatten (ms : List KVs) (d : Nat) (h : ∀ m ∈ ms, depthKVs m ≤ d) : depthKVs ms.flatten ≤ d := by
+  induction ms with
+  | nil => simp [depthKVs, XVal.depth.go]
+  | cons m ms ih =>
+    simp only [List.flatten_cons, depthKVs_append]
+    have h1 := h m (by simp)
+    have h2 := ih (fun m' hm' => h m' (by simp [hm']))
+    omega
+
+theorem mem_vals (evs : KVs) (k : String) (v : XVal) (h : v ∈ vals evs k) : (k, v) ∈ evs := by
+  simp only [vals, List.mem_map, List.mem_filter, beq_iff_eq] at h
+  obtain ⟨p, ⟨hp, hk⟩, hv⟩ := h
+  obtain ⟨k', v'⟩ := p
+  simp only at hk hv; subst hk; subst hv; exact hp
+
+/-- with more fuel than the nesting depth the fuel error is unreachable -/
+theorem concatEvs_fuel_ok (cfg : Cfg) (n : Nat) (evs : KVs) (hd : depthKVs evs < n) :
+    concatEvs cfg n evs ≠ .error .fuel := by
+  induction n generalizing evs with
+  | zero => omega
+  | succ n ih =>
+    intro h
+    rw [concatEvs_succ] at h
+    obtain ⟨k, _, he⟩ := buildM_error _ _ _ h
+    rcases perKey_err _ _ _ _ he with h1 | ⟨h2, _⟩ | ⟨ms, hne, hms, h3⟩
+    · cases h1
+    · cases h2
+    · refine ih ms.flatten ?_ h3
+      have : ∀ m ∈ ms, depthKVs m ≤ n - 1 := by
+        intro m hm
+        have h1 := depth_mem evs k _ (mem_vals evs k _ (hms m hm))
+        rw [depth_map] at h1
+        omega
+      have := depthKVs_flatten ms (n - 1) this
+      have hpos : 0 < n := by
+        cases ms with
+        | nil => exact absurd rfl hne
+        | cons m _ =>
+          have h1 := depth_mem evs k _ (mem_vals evs k _ (hms m (by simp)))
+          rw [depth_map] at h1; omega
+      omega
+
 end EinoV.C14
